@@ -42,13 +42,14 @@ PROPS = {
     },
     "C14": {
         "engine": "lexmon+miri",
-        "rule": "OsStrExt: every haystack over the boundary alphabet up to the length bound x 9 needles (-, --, =, a, e-acute, a=, comma, euro, '1.') "
+        "rule": "OsStrExt: every haystack over the boundary alphabet up to the length bound x 16 needles (-, --, =, a, e-acute, a=, comma, euro, '1.', and the "
+                "self-overlapping aab, --a, -=-, aaa, a-a, ==a, 1.1e) + needles derived from the haystack (its valid-UTF-8 substrings of 2-4 bytes at offsets 1, 2) "
                 "compared with naive window search on bytes (find/contains/starts_with/strip_prefix/split_once/split/try_str); "
                 "RawArgs: op histories (next, next_os, peek, peek_os, is_end, remaining, seek Start/Current/End with offsets "
                 "{0,+-1,+-2,+-3,-4,+-100,i64::MIN,i64::MIN+1,i64::MAX}, insert 0..2 items, cursor clone/compare; two cursors) "
                 "against a (Vec, index) model with uniquely named items: exhaustive over an 8-op alphabet up to length min(L,5) "
                 "on lists of 0..2 items, random histories of length <= 40 beyond. Natively, under Miri and valgrind.",
-        "exhaustive_note": "haystacks alphabet^<=L x 9 needles; cursor histories 8^<=min(L,5) x {0,1,2} items",
+        "exhaustive_note": "haystacks alphabet^<=L x (16 + derived) needles; cursor histories 8^<=min(L,5) x {0,1,2} items",
         "assumptions": ["Unix OsStr encoding", "needles are non-empty UTF-8 (the property's premise)",
                         "a clean Miri/valgrind run covers only the executions made"],
         "technique": "Miri + valgrind memcheck + lock-step reference-model monitor (bytes / list+index) over exhaustive short and random long operation histories",
@@ -85,7 +86,7 @@ PROPS = {
                 "(plus, on a full-i64 base parser, T::MIN-3, T::MAX+3, i64::MIN, i64::MAX) x {inclusive, exclusive, unbounded} x candidate "
                 "values b+d (b in range bounds, T limits, i64/u64 limits, +-2^63, 2^64; d in -2..2) x spellings (plain, +, leading zeros, -0, "
                 "spaces, trailing junk, .0, e0) + junk strings (empty, signs only, hex, underscores, fullwidth/Arabic digits, 40-digit, 73-digit zeros) "
-                "+ non-UTF-8; same for u64; every ASCII-case variant of the 12 boolish literals +- space/junk for bool/boolish/falsey/non-empty. "
+                "+ non-UTF-8; same for u64; every ASCII-case variant of the 12 boolish literals +- space/junk, every single byte and every literal with one position replaced by each of the 256 byte values, for bool/boolish/falsey/non-empty. "
                 "Oracle: independent decimal model (no machine-integer parsing; i128 after a length check) intersected with range and type; "
                 "error kind and 'error names the argument'; every 7th (type,range) also through a real parse `--num=<s>`. "
                 "random: possible-value sets (aliases, hidden, ignore_case, non-ASCII names) x candidate strings; typed-access histories "
@@ -109,6 +110,7 @@ PROPS = {
         "rule": "conventional-class command trees (flags SetTrue/SetFalse/Count, options Set/Append with num_args in {1, 2, 1..=3, 2..=3, 1.., 0.., 0..=1}, "
                 "delimiters, require_equals, terminators, positionals with a multi-valued/last final one, the low-index-multiple shape (required `1..` "
                 "positional + one required final positional), allow_negative_numbers / allow_hyphen_values options with dash-looking values, "
+                "a trailing multi-valued positional with allow_hyphen_values (later values: known flags/longs, -h/--help/-V/--version, unknown dash words), "
                 "subcommand_precedence_over_arg, hidden aliases, merged `-vS` clusters, subcommands with aliases and "
                 "short/long flag forms, infer_long_args/infer_subcommands, depth <= 2) x valid intents (ordered occurrences whose values are "
                 "unique ids `<arg>o<occ>v<k>`, delimiter tokens with empty pieces) x spellings (canonical + 3 random styles: =/space, attached "
@@ -117,6 +119,7 @@ PROPS = {
                 "flattened occurrences, sources, flag/count values, subcommand chain; indices of command-line values are distinct and "
                 "sorted like the argv places the renderer recorded. distinct_nontrivial = distinct (spec, argv) with >= 1 token.",
         "assumptions": COMMON_ASSUME + ["the class is where the documented grammar is unambiguous: values start with '-' only for arguments that allow negative numbers / hyphen values (never inside a low-index pair), never equal or prefix a subcommand name; "
+                                        "a level with an allow_hyphen_values positional has long-only value options (clap reads `-oVAL` / `-o=VAL` before such a positional as a positional value: observed, not judged, DESIGN 12); "
                                         "a multi-valued occurrence is closed by a following flag/option, its terminator, `--`, the end (options also by reaching the maximum or an attached value)"],
         "technique": "reference-model monitor: intent -> spellings -> observed ArgMatches compared with the intent (conservation/exactly-once on uniquely tagged values, index ordering)",
         "level_text": "Each generated line is a history with unique value ids; attribution is decided exactly (multiset + order + occurrence boundaries), 10^5-10^6 lines per quick run.",
@@ -126,12 +129,12 @@ PROPS = {
         "quick_ms": 15000,
         "thorough_ms": 240000,
         "floors": {"fold.ok": 10000, "repeat.rejected": 1000, "fold.count_saturated": 100, "fold.removed_by_override": 500,
-                   "fold.append_multi": 500, "seq.count_boundary": 250},
-        "rule": "1-4 arguments (Set/Append/SetTrue/SetFalse/Count, optional num_args 1..=2, delimiter, default) with a random override graph "
+                   "fold.append_multi": 500, "seq.count_boundary": 250, "fold.empty-occurrence": 500},
+        "rule": "1-4 arguments (Set/Append/SetTrue/SetFalse/Count, optional num_args 1..=2 or 0..=N with/without default_missing_value, delimiter, default) with a random override graph "
                 "(both declaration directions, self-overrides, args_override_self) x occurrence sequences of length 0..300 "
                 "(0, 1, 2, 254, 255, 256, 257, 300 always drawn; long runs focus one argument with others interleaved) x spellings "
                 "(clusters -vvvv/-ab, long, =, attached). Oracle: sequential fold model (Set: last or ArgumentConflict; Append: all "
-                "occurrences in order with boundaries; Count: min(n,255); flags: truth with opposite default and DefaultValue source when "
+                "occurrences in order with boundaries, an occurrence without a value staying an (empty or default_missing) occurrence of its own; Count: min(n,255); flags: truth with opposite default and DefaultValue source when "
                 "absent; an override in either direction removes the other's earlier occurrences).",
         "assumptions": COMMON_ASSUME + ["override semantics taken from the documentation: whichever of a/b is given last remains"],
         "technique": "reference-model monitor: sequential fold over recorded occurrence histories with unique value ids",
@@ -217,11 +220,11 @@ PROPS = {
         "quick_ms": 15000,
         "thorough_ms": 240000,
         "floors": {"result.ok": 10000, "result.err": 10000, "relevant.requirement-satisfied": 2500, "relevant.exempt-conflict": 500,
-                   "relevant.exempt-exclusive": 100, "relevant.exempt-subcommand": 250, "relevant.conflict-half-present": 500},
-        "rule": "2-7 flags/options (defaults, env) + 0-2 groups (required/multiple/conflicts/requires) with random relation digraphs: conflicts_with "
+                   "relevant.exempt-exclusive": 100, "relevant.exempt-subcommand": 250, "relevant.conflict-half-present": 500, "argv.append-several-occurrences": 5000},
+        "rule": "2-7 flags/options (Set or Append, defaults, env) + 0-2 groups (required/multiple/conflicts/requires) with random relation digraphs: conflicts_with "
                 "(args and groups), requires, requires_if(s), overrides (1/3 of cases, incl. chains and self), required, exclusive, "
                 "required_unless_present_any/_all, required_if_eq_any/_all, subcommand_negates_reqs / args_conflicts_with_subcommands x argv "
-                "supplying a uniformly sized random subset (with repeats under overrides) + env. Oracle on every Ok: independent evaluator over "
+                "supplying a uniformly sized random subset (with repeats under overrides; Append options 1-3 times with values from {v1,v2,v3}) + env. Oracle on every Ok: independent evaluator over "
                 "the explicitly present set (value_source in {CommandLine, EnvVariable}): declared conflicts both present, exclusive not alone, "
                 "non-multiple group with two members, anything required (statically, by a present argument's requires/requires_if, required "
                 "group, group requires, required-if/unless) absent without a documented exemption.",
@@ -294,14 +297,14 @@ PROPS = {
         "quick_ms": 15000,
         "thorough_ms": 240000,
         "floors": {"pages.rendered": 25000, "control.pages-compared": 10000, "visible.arg-checked": 15000, "hidden.arg-checked": 1500,
-                   "visible.subcommand-checked": 2500, "hidden.subcommand-checked": 500, "arg-checked.short-only": 1500},
+                   "visible.subcommand-checked": 2500, "hidden.subcommand-checked": 500, "arg-checked.short-only": 1500, "visible.help-subcommand-checked": 2500},
         "rule": "wild command trees (depth <= 2, marker names as in C12, env, defaults, headings, possible values with help, versions, authors) in two "
                 "variants with identical structure and identical line structure of every text slot: benign words vs adversarial lines (each "
                 "starting with one of . ' \\ - \" .SH 'br \\fB .\\\" .. followed by hostile fragments: quotes, backslashes, $(), backticks, "
                 "brackets, non-ASCII, tabs). Slots: about, long_about, before/after(_long)_help, author, version, long_version, arg help/long_help, "
                 "possible-value help, defaults, help headings, display_name, subcommand heading and value name. A page is rendered for the root and "
                 "every subcommand (Man::new on the built tree). Oracle: no panic; two renders identical; on the benign variant every non-hidden "
-                "option/positional/subcommand marker present and every hidden one absent; multiset of control lines (first byte . or ') as "
+                "option/positional/subcommand marker present (short-only flags by their bold `-x` entry; the generated `help` subcommand too) and every hidden one absent; multiset of control lines (first byte . or ') as "
                 "(request, argument count) equal between the variants.",
         "assumptions": COMMON_ASSUME + ["control-line arguments are counted roff-style: separated by spaces, double quotes group (tabs do not separate)",
                                         "blank lines in text legitimately become .PP: both variants have the same blank-line pattern",
@@ -375,7 +378,7 @@ PROPS = {
                    "type.A": 500, "type.B": 500, "type.C": 500, "type.D": 500, "type.E": 500, "type.F": 500, "type.G": 500, "type.L": 500,
                    "update.sub.option.same-variant": 300, "update.sub.option.other-variant": 300, "update.sub.plain.same-variant": 300, "update.sub.option.no-subcommand-named": 150},
         "rule": "corpus of 10 derived Parser types (+ Args, 3 Subcommand enums, 1 ValueEnum) spanning bool / SetFalse bool / counter / T / Option<T> / "
-                "Option<Option<T>> / Vec<T> / Option<Vec<T>> / delimited Vec / fixed-arity Vec / last Vec / positionals / default_value_t / "
+                "Option<Option<T>> (with and without default) / Vec<T> / Option<Vec<T>> / delimited Vec / fixed-arity Vec / last Vec / positionals / default_value_t / "
                 "default_values_t / default_missing_value / env / rename_all / flatten / global / optional, required, nested and external subcommands / "
                 "value_enum with aliases, renamed, hidden and skipped variants. Per type: random values are printed to argv and parsed back (round trip); "
                 "the printed line and 3 mutations of it (token dropped/duplicated/swapped/suffixed, --bogus, -h, --, empty, overflow) are parsed by "
